@@ -11,7 +11,34 @@ pub fn lanes() -> Vec<Lane> {
     vec![
         Lane { name: "gen", count: |c| if c.thorough() { 2_000_000 } else { 300_000 }, run: gen_lane },
         Lane { name: "built", count: |c| if c.thorough() { 400_000 } else { 60_000 }, run: built_lane },
+        Lane { name: "long-numbers", count: |_| LONG.len() as u64, run: long_numbers_lane },
     ]
+}
+
+/// Fields whose sort has to compare versions with a digit run beyond 32 bits (date-stamped versions), with the
+/// normal form they must have.
+const LONG: [(&str, &str); 4] = [
+    ("a (>= 0.0~git20240101123456), a (>= 0.0~git20230101123456)", "a (>= 0.0~git20230101123456), a (>= 0.0~git20240101123456)"),
+    ("a (>= 2147483648), a (>= 2147483647)", "a (>= 2147483647), a (>= 2147483648)"),
+    ("b (= 1.0+git20240101120000) | b (= 1.0+git20240101110000)", "b (= 1.0+git20240101110000) | b (= 1.0+git20240101120000)"),
+    ("c (<< 20240101120001-1), c (<< 20240101120000)", "c (<< 20240101120000), c (<< 20240101120001-1)"),
+];
+
+fn long_numbers_lane(ctx: &mut Ctx, idx: u64) {
+    let (input, want) = LONG[idx as usize];
+    let res = guard(1024, || Relations::from_str(input).map(|r| r.wrap_and_sort().to_string()));
+    ctx.count("evaluations");
+    match res {
+        Err(f) => ctx.violation(&format!("{}|Relations::wrap_and_sort|numeric-component-beyond-32-bits", f.class()), json!({"input": input, "failure": f.json()})),
+        Ok(Err(e)) => ctx.violation("rejected|Relations::wrap_and_sort|numeric-component-beyond-32-bits", json!({"input": input, "error": e})),
+        Ok(Ok(out)) => {
+            if out != want {
+                ctx.violation("wrong-normal-form|Relations::wrap_and_sort|numeric-component-beyond-32-bits", json!({"input": input, "expected": want, "got": out}));
+            }
+        }
+    }
+    ctx.distinct_exact += 1;
+    ctx.sample(|| json!({"input": input, "expected": want}));
 }
 
 fn canonical_rel(s: &Seen) -> String {
